@@ -527,6 +527,9 @@ def run_check(pid, tier, seed):
                 sh.fbin = fbin
                 fuzz_shards.append(sh)
                 shards.append(sh)
+        if fuzz_shards:
+            # start the fuzzers first (with fail-fast a failing rapidcheck shard would keep them from ever starting)
+            shards = fuzz_shards + [x for x in shards if not getattr(x, "fuzzer", None)]
         fill = p.get("fill_differential")
         if fill:
             # heap-fill differential (uninitialised reads): every shard runs a second time with another
@@ -678,6 +681,11 @@ def run_check(pid, tier, seed):
             else:
                 unreproduced += 1
                 log("[warn] %s: failing case %s did not reproduce on replay (harness problem, not reported)" % (pid, dst))
+                # keep what the shard printed for diagnosis
+                dd = os.path.join(BUILD, "unreproduced")
+                os.makedirs(dd, exist_ok=True)
+                with open(os.path.join(dd, "%s-%s.log" % (pid, os.path.basename(dst))), "w") as f:
+                    f.write("shard %d rc=%s cmd=%s\n%s\n" % (s.idx, s.rc, " ".join(s.cmd), s.log_tail(200)))
         dirs = [s.outdir for s in shards if not getattr(s, "twin_of", None) and s.idx != 300 and not getattr(s, "fuzzer", None)]
         tot = merge_stats(dirs)
         if fuzz_shards:
